@@ -8,7 +8,10 @@ RULE = ("random engine states built through the real Engine::process (2-3 exchan
         "of 2 exchanges x 2 instruments, (5 order classes x 4 position/price classes)^2 states (full product for the first layout, a quarter slice for the others) x 14 filters "
         "(none, every subset of exchanges / instruments / underlyings incl. ones naming nothing), each with cancel_orders twice, close_positions twice, then unfiltered observation "
         "(8 400 cases). Observed: what every execution receiver got during the tick, the ActionOutput (sent / errors) in the audit, every instrument's order table. "
-        "Distinct by SHA-1 of op lines; non-trivial when the observations change at least once")
+        "Distinct by SHA-1 of op lines; non-trivial when the observations change at least once. Input-domain family d<k> (N/8 further cases, separately seeded, same case builder): "
+        "reversed-pair underlyings (instruments a3/a0 next to a0/a3, filters naming one direction); decimal quantities (1e-8 .. 1e7, fractions) and prices (exact as f64: 2^-10 .. 12345678); "
+        "engines with one exchange or 4-5 exchanges; positions closed (`flat`) before the command, a third re-opened on the other side; a tracked order whose client order id equals the "
+        "injected close-position id 9000+i; the same command three times in a row; market price 0")
 ASSUMPTIONS = [
     "key-uniqueness of each instrument's order table (a FnvHashMap in the code) is a hypothesis of cancel_scope_lookup / cancel_at_most_once / repeat_*; it is proved invariant over all engine histories "
     "from empty tables (keys_unique_invariant, tables_unique_invariant)",
@@ -19,6 +22,7 @@ ASSUMPTIONS = [
     "the close-position client order id generator is injected (9000 + instrument index); ClosePositions uses the repo's default close_open_positions_with_market_orders",
     "positions / prices are not printed by the shared protocol; they are observed through the requests of later unfiltered close_positions commands",
     "channel semantics (send succeeds iff the receiver is alive, FIFO) as in C03",
+    "limits of the shared engine line protocol (harness/src/engine_proto.rs, Driver/EngineCommon.lean; not changed here): `ev fill` is only issued on an instrument that holds no position (the model event sets the position, the harness sends one trade), never with quantity 0 (the harness skips it as `noop`); market prices travel as f64 (PublicTrade.price), so generated prices are exact binary fractions; a filter with an EMPTY list (InstrumentFilter::Exchanges(Many(vec![])) etc.) has no syntax and is not generated",
 ]
 SOURCE_FILES = ["barter/src/engine/action/cancel_orders.rs", "barter/src/engine/action/close_positions.rs", "barter/src/strategy/close_positions.rs",
                 "barter/src/engine/state/instrument/mod.rs", "barter/src/engine/state/instrument/filter.rs", "barter-execution/src/order/mod.rs",
